@@ -184,12 +184,16 @@ def gen_counter_sample(rng, dv):
     return body, tree
 
 
-def gen_datagram(rng, directed=False, kinds=None):
+def gen_datagram(rng, directed=False, kinds=None, small_header=None):
     """returns (payload, header dict, samples) with samples = list of (type value on the wire, 'flow'|'counter'|'unknown', tree)"""
     dv = Distinct(rng, directed)
     v6 = rng.random() < 0.3
     agent = bytes(dv.val(1) for _ in range(16 if v6 else 4))
     sub, seq, up = dv.val(4), dv.val(4), dv.val(4)
+    if small_header is not None:
+        # header words that look like counts and sample tags (1 sample, type 1 / 2, a listed filter entry): anything that reads the
+        # datagram at fixed offsets takes them for something else when the agent address has the other length
+        sub, seq, up = (rng.choice(list(small_header) + [0, 1, 1, 2]) for _ in range(3))
     if kinds is None:
         kinds = [rng.choice(["flow", "flow", "counter", "counter", "unknown", "unknown-enterprise"]) for _ in range(rng.choice([1, 1, 2, 3, 4, 6]))]
     samples, wire = [], b""
